@@ -20,7 +20,7 @@ from harness.core import fl, zl, nl, bl, ll, pl, optl, translated_specs
 PROP = "C09"
 # second tie (notes/TRANSLATOR.md): Selector.pop_acceptance is translated from the current source on every run
 # and proved equal to Model/Runs.v pop_acceptance (GenProofs/PopAcceptanceEquiv.v)
-TRANSLATED = translated_specs("PopAcceptanceGen", "IndividualInitGen", "NsgaRunGen", "GenerateGen")   # + what a new Individual starts with (feasible falsy) = Model/Job.v fresh
+TRANSLATED = translated_specs("PopAcceptanceGen", "IndividualInitGen", "NsgaRunGen", "GenerateGen", "EpsRunGen")   # + what a new Individual starts with (feasible falsy) = Model/Job.v fresh
 THEOREMS = {"Artap.Props.C09": [
     "C09_generate_exact", "C09_nsga2_bookkeeping", "C09_pso_epsmoea_bookkeeping", "C09_nsga2_elitism",
     "C09_single_objective_best_monotone", "C09_pop_acceptance_size", "C09_pop_acceptance_cases",
